@@ -265,6 +265,26 @@ pub fn run_property(prop: Property, make_gens: impl FnOnce(&Ctx) -> Vec<Gen<'sta
     };
     let sw = Stopwatch::start();
     let gens = make_gens(&ctx);
+    // debugging aid: VERIF_ONLY=generator:case runs one case and dumps it
+    if let Ok(only) = std::env::var("VERIF_ONLY") {
+        let mut it = only.split(':');
+        let gname = it.next().unwrap_or("");
+        let idx: usize = it.next().and_then(|s| s.parse().ok()).unwrap_or(0);
+        let g = gens.iter().find(|g| g.name == gname).expect("unknown generator");
+        let r = util::guarded(|| (g.run)(&ctx, idx));
+        match r {
+            Ok(cr) => {
+                println!("shape={:?} sample={}", cr.shape, serde_json::to_string_pretty(&cr.sample).unwrap());
+                for v in &cr.violations {
+                    println!("VIOL clause={} sig={}\n  {}\n  witness={}", v.clause, serde_json::to_string(&v.sig).unwrap(), v.detail,
+                        serde_json::to_string(&v.witness).unwrap().chars().take(3000).collect::<String>());
+                }
+                println!("inconclusive={:?}", cr.inconclusive);
+            }
+            Err(p) => println!("harness panic {} @ {}", p.msg, p.loc),
+        }
+        std::process::exit(0);
+    }
     let budget = Duration::from_secs(match tier {
         Tier::Quick => prop.budget_quick_s,
         Tier::Thorough => prop.budget_thorough_s,
@@ -282,6 +302,15 @@ pub fn run_property(prop: Property, make_gens: impl FnOnce(&Ctx) -> Vec<Gen<'sta
     let mut inconclusive: Vec<String> = vec![];
     let mut harness_panics: Vec<String> = vec![];
 
+    // flute's filesystem writer prints to stdout; keep our protocol lines clean
+    let saved_stdout = unsafe { libc::dup(1) };
+    unsafe {
+        let devnull = libc::open(b"/dev/null\0".as_ptr() as *const libc::c_char, libc::O_WRONLY);
+        if devnull >= 0 && saved_stdout >= 0 {
+            libc::dup2(devnull, 1);
+            libc::close(devnull);
+        }
+    }
     for g in &gens {
         let gsw = Stopwatch::start();
         let results = util::par_cases(g.n, Some(deadline), |i| {
@@ -337,12 +366,30 @@ pub fn run_property(prop: Property, make_gens: impl FnOnce(&Ctx) -> Vec<Gen<'sta
             "wall_s": (gsw.secs()*100.0).round()/100.0}));
     }
 
+    unsafe {
+        if saved_stdout >= 0 {
+            use std::io::Write;
+            std::io::stdout().flush().ok();
+            libc::dup2(saved_stdout, 1);
+            libc::close(saved_stdout);
+        }
+    }
     // ---- classify violations
     let mut known_hits: BTreeMap<String, u64> = BTreeMap::new();
     let mut new_viol: Vec<(String, usize, Violation)> = vec![];
     let mut seen_sig: HashSet<String> = HashSet::new();
     let mut new_total = 0u64;
     let mut by_sig: BTreeMap<String, u64> = BTreeMap::new();
+    // full dump for triage (scratch, not evidence)
+    {
+        use std::io::Write;
+        let p = verif_root().join("harness").join("target").join(format!("violations-{}.jsonl", prop.id));
+        if let Ok(mut f) = std::fs::File::create(&p) {
+            for (g, i, v) in &all_viol {
+                let _ = writeln!(f, "{}", json!({"gen": g, "case": i, "sig": v.sig, "detail": v.detail.chars().take(300).collect::<String>()}));
+            }
+        }
+    }
     for (g, i, v) in all_viol {
         if let Some(f) = findings.iter().find(|f| finding_matches(f, &v)) {
             *known_hits.entry(f.id.clone()).or_insert(0) += 1;
